@@ -59,7 +59,7 @@ package keeper
 // ri_len:      hence len(OffBoarding) <= len(Voters) is preserved.
 
 //@ func (Keeper).ProcessRelayerRequest
-//@ property C16 C09
+//@ property C16 C09 C19
 //@ let ACT = types.VOTER_STATUS_ACTIVATED
 //@ let OFF = types.VOTER_STATUS_OFF_BOARDING
 //@ let PEND = types.VOTER_STATUS_PENDING
@@ -176,7 +176,7 @@ package keeper
 //   SURVIVOR  if the proposer is being removed, some voter is not: this is what `len(OffBoarding) <= len(Voters)` gives
 //             for a duplicate-free queue of members and a duplicate-free member list (pigeonhole; paper argument, see NOTES.md)
 //@ func (Keeper).EndBlocker
-//@ property C16
+//@ property C16 C19
 //@ let ON = types.VOTER_STATUS_ON_BOARDING
 //@ let OFF = types.VOTER_STATUS_OFF_BOARDING
 //@ let ACT = types.VOTER_STATUS_ACTIVATED
